@@ -17,12 +17,12 @@ import (
 // C03 No unauthorised debit.
 
 type c03Oracle struct {
-	obs      Obs
-	eoas     map[string]bool // textual address -> known externally owned account
-	blocks   int
-	advOK    int // adversarial (impersonating / forged) transactions that returned code 0 without hurting anyone
-	debits   int // authorised debits observed
-	matured  int
+	obs     Obs
+	eoas    map[string]bool // textual address -> known externally owned account
+	blocks  int
+	advOK   int // adversarial (impersonating / forged) transactions that returned code 0 without hurting anyone
+	debits  int // authorised debits observed
+	matured int
 }
 
 type vRecord struct {
@@ -182,7 +182,7 @@ func txSummary(ob *Obs) string {
 }
 
 func (o *c03Oracle) Finish(e *core.Engine) []core.Violation { return nil }
-func (o *c03Oracle) NonTrivial(e *core.Engine) bool          { return o.blocks >= 5 && o.debits >= 3 }
+func (o *c03Oracle) NonTrivial(e *core.Engine) bool         { return o.blocks >= 5 && o.debits >= 3 }
 
 func init() {
 	Register(&ClusterProp{
